@@ -288,6 +288,10 @@ fn exact_body(c: &ExactCase, rec: &mut Rec) -> CaseResult {
     for t in types {
         rec.class(t);
     }
+    let wire_len = |n: &Labels| n.iter().map(|l| l.len() + 1).sum::<usize>() + 1;
+    if expected.iter().any(|f| wire_len(&f.owner) == 255) {
+        rec.class(if feats.contains(&Feature::OwnerRelative) { "owner-of-exactly-255-octets(file-uses-relative-owners)" } else { "owner-of-exactly-255-octets" });
+    }
     // NT rule (DESIGN §7 C20): >= 3 records and >= 2 layout features among inheritance, relative
     // name, continuation, escape, $ORIGIN switch
     let nt_feats = [
@@ -531,6 +535,221 @@ fn garbage_body(g: &Garbage, rec: &mut Rec) -> CaseResult {
     Ok(())
 }
 
+// ---------------------------------------------------------------------------------------------
+// $INCLUDE: the same record sets, with a run of the file's lines moved into an included file (and
+// a run of those into a second, nested one). RFC 1035 §5.1: the included file is read in place,
+// and "a $INCLUDE entry never changes the relative origin of the parent file, regardless of
+// changes to the relative origin made within the included file". What the RFC leaves open is kept
+// out of the domain: the line after a $INCLUDE states its owner and TTL (or has the parent's own
+// $TTL), included files carry no $TTL and state every TTL, all files sit in one directory, and the
+// optional domain-name argument (which hickory documents as unsupported) is not used.
+
+#[derive(Clone, Debug, Serialize, Deserialize)]
+struct IncludeCase {
+    zone: ZoneFile,
+    /// cut points, as fractions of the item count (sorted when used)
+    cuts: [u16; 4],
+    nested: bool,
+    absolute_path: bool,
+    comment: bool,
+    inc_final_newline: bool,
+    /// the innermost included file includes the first one again: malformed, must be refused
+    cyclic: bool,
+}
+
+fn include_case(tier: Tier) -> impl Strategy<Value = IncludeCase> {
+    (zgen::zone_file(tier, false), any::<[u16; 4]>(), any::<bool>(), prop::bool::weighted(0.2), prop::bool::weighted(0.3), prop::bool::weighted(0.7), prop::bool::weighted(0.04)).prop_map(
+        |(zone, cuts, nested, absolute_path, comment, inc_final_newline, cyclic)| IncludeCase {
+            zone,
+            cuts,
+            nested,
+            absolute_path,
+            comment,
+            inc_final_newline,
+            cyclic,
+        },
+    )
+}
+
+fn c20_tmp_dir() -> std::io::Result<tempfile::TempDir> {
+    if std::path::Path::new("/dev/shm").is_dir() {
+        if let Ok(d) = tempfile::Builder::new().prefix("vcheck-c20-").tempdir_in("/dev/shm") {
+            return Ok(d);
+        }
+    }
+    tempfile::Builder::new().prefix("vcheck-c20-").tempdir()
+}
+
+/// (origin, $TTL) in effect after these items, starting from the given ones
+fn state_after(items: &[zp::Item], origin: &Labels, ttl: Option<u32>) -> (Labels, Option<u32>) {
+    let mut o = origin.clone();
+    let mut t = ttl;
+    for it in items {
+        match it {
+            zp::Item::Origin { name, .. } => o = name.clone(),
+            zp::Item::Ttl { ttl, .. } => t = Some(*ttl),
+            _ => {}
+        }
+    }
+    (o, t)
+}
+
+/// the items of an included file: no $TTL of its own, every TTL stated
+fn for_included(items: &[zp::Item]) -> Vec<zp::Item> {
+    items
+        .iter()
+        .filter(|i| !matches!(i, zp::Item::Ttl { .. }))
+        .cloned()
+        .map(|i| match i {
+            zp::Item::Rr { rec, mut lay } => {
+                lay.ttl_explicit = true;
+                zp::Item::Rr { rec, lay }
+            }
+            other => other,
+        })
+        .collect()
+}
+
+fn include_body(c: &IncludeCase, rec: &mut Rec) -> CaseResult {
+    let z = &c.zone;
+    if let Some(reason) = zp::out_of_domain(z) {
+        rec.discard(reason);
+        return Ok(());
+    }
+    let expected = zp::denoted(z);
+    if expected.len() < 2 {
+        rec.discard("fewer-than-two-records");
+        return Ok(());
+    }
+    let avoid: Features = active_suspects().iter().map(|(f, _)| *f).collect();
+    let n = z.items.len();
+    let mut cut: Vec<usize> = c.cuts.iter().map(|x| (*x as usize * (n + 1)) >> 16).collect();
+    cut.sort_unstable();
+    // parent: [0, a) + $INCLUDE + [d, n); included: [a, b) + ($INCLUDE of [b, c2) +) [c2, d)
+    let (a, d) = (cut[0], cut[3]);
+    let (b, c2) = if c.nested { (cut[1], cut[2]) } else { (d, d) };
+    let has_rr = |r: &[zp::Item]| r.iter().any(|i| matches!(i, zp::Item::Rr { .. }));
+    if !has_rr(&z.items[a..d]) {
+        rec.discard("no-record-in-the-included-part");
+        return Ok(());
+    }
+    let dir = c20_tmp_dir().map_err(|e| Fail::new("harness", format!("tempdir: {e}")))?;
+    let path_of = |name: &str| -> String {
+        if c.absolute_path {
+            dir.path().join(name).to_string_lossy().into_owned()
+        } else {
+            name.to_string()
+        }
+    };
+    let include_line = |name: &str, crlf: bool| -> String { format!("$INCLUDE {}{}{}", path_of(name), if c.comment { " ; included here" } else { "" }, if crlf { "\r\n" } else { "\n" }) };
+    let file = |origin: &Labels, items: Vec<zp::Item>, final_newline: bool| -> (String, Features) {
+        zp::print(
+            &ZoneFile {
+                origin: origin.clone(),
+                items,
+                crlf: z.crlf,
+                final_newline,
+            },
+            &avoid,
+        )
+    };
+    let mut feats = Features::new();
+
+    // ---- parent --------------------------------------------------------------------------------
+    let (o_a, t_a) = state_after(&z.items[..a], &z.origin, None);
+    let (mut parent, f) = file(&z.origin, z.items[..a].to_vec(), true);
+    feats.extend(f);
+    parent.push_str(&include_line("inc1.zone", z.crlf));
+    let mut tail: Vec<zp::Item> = Vec::new();
+    if let Some(t) = t_a {
+        // the parent's own $TTL is still in force; restating it tells the printer so
+        tail.push(zp::Item::Ttl { ttl: t, comment: None });
+    }
+    tail.extend(z.items[d..].iter().cloned());
+    // printed relative to the origin in force *before* the $INCLUDE
+    let (t, f) = file(&o_a, tail, z.final_newline);
+    feats.extend(f);
+    parent.push_str(&t);
+
+    // ---- included files ------------------------------------------------------------------------
+    let (o_b, _) = state_after(&z.items[a..b], &o_a, None);
+    let (mut inc1, f) = file(&o_a, for_included(&z.items[a..b]), if c.nested { true } else { c.inc_final_newline });
+    feats.extend(f);
+    let mut origin_moves_in_include = z.items[a..d].iter().any(|i| matches!(i, zp::Item::Origin { name, .. } if *name != o_a));
+    if c.nested {
+        inc1.push_str(&include_line("inc2.zone", z.crlf));
+        let (inc2, f) = file(&o_b, for_included(&z.items[b..c2]), c.inc_final_newline);
+        feats.extend(f);
+        std::fs::write(dir.path().join("inc2.zone"), &inc2).map_err(|e| Fail::new("harness", format!("write: {e}")))?;
+        // back in inc1: its own origin, whatever inc2 did
+        let (t, f) = file(&o_b, for_included(&z.items[c2..d]), c.inc_final_newline);
+        feats.extend(f);
+        inc1.push_str(&t);
+        origin_moves_in_include |= o_b != o_a;
+    }
+    if c.cyclic {
+        if !inc1.ends_with('\n') {
+            inc1.push('\n');
+        }
+        inc1.push_str(&include_line("inc1.zone", z.crlf));
+    }
+    std::fs::write(dir.path().join("inc1.zone"), &inc1).map_err(|e| Fail::new("harness", format!("write: {e}")))?;
+    let parent_path = dir.path().join("parent.zone");
+    std::fs::write(&parent_path, &parent).map_err(|e| Fail::new("harness", format!("write: {e}")))?;
+
+    rec.class(if c.nested { "include:nested" } else { "include:one-level" });
+    rec.class(if c.absolute_path { "include-path:absolute" } else { "include-path:relative-to-the-including-file" });
+    let parent_relies_on_origin = has_rr(&z.items[d..]);
+    if origin_moves_in_include {
+        rec.class(if parent_relies_on_origin { "$ORIGIN-changed-inside-include,records-follow-in-parent" } else { "$ORIGIN-changed-inside-include" });
+    }
+    if !c.inc_final_newline {
+        rec.class("included-file-without-final-newline");
+    }
+    if a == 0 {
+        rec.class("$INCLUDE-is-the-first-line");
+    }
+    if !has_rr(&z.items[d..]) {
+        rec.class("$INCLUDE-is-the-last-line-with-records-behind-it:no");
+    }
+    for f in &feats {
+        rec.class(f.label());
+    }
+    rec.nontrivial();
+    let show = || format!("parent.zone:\n{}\ninc1.zone:\n{}", render_case(&parent), render_case(&inc1));
+    if rec.wants_note() {
+        rec.note(show());
+    }
+
+    let origin_name = to_abs(&z.origin);
+    let r = catch(|| Parser::new(parent.as_str(), Some(parent_path.clone()), Some(origin_name)).parse());
+    if c.cyclic {
+        rec.class("include:file-includes-itself");
+        return match r {
+            Err(p) => Err(crate::core::panic_fail(&p)),
+            Ok(Err(_)) => Ok(()),
+            Ok(Ok(_)) => vfail!("self-including-file-accepted", "a file that includes itself loaded without an error; {}", show()),
+        };
+    }
+    let map = match r {
+        Err(p) => return Err(crate::core::panic_fail(&p)),
+        Ok(Err(e)) => vfail!("include-file-rejected", "parse error: {e}; {}", show()),
+        Ok(Ok((_o, map))) => map,
+    };
+    let loaded = flatten(&map);
+    vensure!(loaded.notes.is_empty(), "include-loaded-records-unusable", "{}; {}", loaded.notes.join("; "), show());
+    if loaded.flats != expected {
+        let exp: BTreeSet<&Flat> = expected.iter().collect();
+        let got: BTreeSet<&Flat> = loaded.flats.iter().collect();
+        let missing: Vec<String> = exp.difference(&got).take(2).map(|f| format!("{f:?}")).collect();
+        let extra: Vec<String> = got.difference(&exp).take(2).map(|f| format!("{f:?}")).collect();
+        // does the difference go away when the parent restates its origin after the $INCLUDE?
+        let sig = if origin_moves_in_include { "origin-set-inside-include-leaks-into-the-including-file" } else { "include-loads-other-records" };
+        vfail!(sig, "denoted but not loaded: [{}]; loaded but not denoted: [{}]; {}", missing.join(", "), extra.join(", "), show());
+    }
+    Ok(())
+}
+
 pub fn check() -> Option<Check> {
     let exact_core = prop("exact_load", 120_000, 2_000_000, |t: Tier| exact_case(t, false), exact_body);
     let exact_ext = prop("exact_load_extended_types", 60_000, 1_000_000, |t: Tier| exact_case(t, true), exact_body);
@@ -543,19 +762,21 @@ pub fn check() -> Option<Check> {
         |t: Tier| zgen::garbage(t).prop_map(|(text, class)| Garbage { class, text }),
         garbage_body,
     );
+    let include = prop_hang("include_layout", 30_000, 500_000, Duration::from_secs(10), include_case, include_body);
     Some(Check {
         id: "C20",
         level: "exploration",
-        rule: "exact_load: 1-10 (thorough 16) items per file: RRs of A, AAAA, NS, CNAME, PTR, MX, SOA, TXT, SRV, CAA, HINFO, NAPTR, TLSA, SSHFP, DS (extended sub: + ANAME, SMIMEA, CERT, OPENPGPKEY, CSYNC, SVCB, HTTPS) with generated field values, owners at/below 1-3 origins incl. wildcard, underscore and escaped-dot labels, runs of RRs at one owner, $ORIGIN / $TTL / blank / comment lines in between; per-RR layout: owner absolute / relative / @ / inherited, TTL explicit / from $TTL / from previous RR, class present / absent, class before TTL, blanks vs tabs, trailing comment, RDATA names absolute / relative / @, strings quoted / unquoted, hex upper/lower and split, parenthesised group over any RDATA field range with line breaks and inner comment, LF / CRLF, final newline present / absent, rare >4 KB comment or blank run. Oracle: loaded map flattened to (owner, class, type, TTL, RDATA) = denoted set, names compared case-insensitively. Non-trivial = distinct case AND >= 3 records AND >= 2 of {inheritance (owner/TTL/class), relative name or @, continuation, escape (\\. \\\" \\\\), $ORIGIN switch}. decimal_escapes: every case. garbage: every case that is rejected with Err (accepted ones are counted).",
+        rule: "exact_load: 1-10 (thorough 16) items per file: RRs of A, AAAA, NS, CNAME, PTR, MX, SOA, TXT, SRV, CAA, HINFO, NAPTR, TLSA, SSHFP, DS (extended sub: + ANAME, SMIMEA, CERT, OPENPGPKEY, CSYNC, SVCB, HTTPS) with generated field values, owners at/below 1-3 origins incl. wildcard, underscore and escaped-dot labels and names padded to exactly 255 (or 254, 252) octets on the wire, runs of RRs at one owner, $ORIGIN / $TTL / blank / comment lines in between; per-RR layout: owner absolute / relative / @ / inherited, TTL explicit / from $TTL / from previous RR, class present / absent, class before TTL, blanks vs tabs, trailing comment, RDATA names absolute / relative / @, strings quoted / unquoted, hex upper/lower and split, parenthesised group over any RDATA field range with line breaks and inner comment, LF / CRLF, final newline present / absent, rare >4 KB comment or blank run. Oracle: loaded map flattened to (owner, class, type, TTL, RDATA) = denoted set, names compared case-insensitively. Non-trivial = distinct case AND >= 3 records AND >= 2 of {inheritance (owner/TTL/class), relative name or @, continuation, escape (\\. \\\" \\\\), $ORIGIN switch}. include_layout: the same files with a run of lines moved into an included file and, in half of the cases, a run of those into a second, nested one ($INCLUDE with a relative or absolute file name, with or without comment, included file with or without final newline, $ORIGIN switches inside the included files); the parent's text after the $INCLUDE line is printed relative to the origin in force before it (RFC 1035 5.1: an included file never changes the parent's origin), files are written to a scratch directory and loaded with Parser::new(text, Some(path), Some(origin)); every case is non-trivial; 1 case in 25 makes the innermost file include itself and must be refused without panic or hang. decimal_escapes: every case. garbage: every case that is rejected with Err (accepted ones are counted).",
         assumptions: vec![
             "exact-load alphabet: LDH labels (no xn-- prefix), leading underscore, leading *, escaped dot; strings printable ASCII with \\\" and \\\\ as the only escapes; class IN; $ORIGIN/$TTL upper case; type mnemonics upper case; TTLs and SOA timers as plain decimal integers (TTL <= 2^31-1, SOA refresh/retry/expire <= 2^31-1 because hickory's SOA stores them as i32)",
             "parentheses are used only around RDATA fields (after the type), the one place hickory's parser accepts a group",
             "one TTL per RRset, no duplicate RRs, at most one SOA per file and one CNAME/ANAME per owner (generator enforces; else discarded)",
             "the first RR of a file states its class explicitly (RFC 1035 defines no default before the first statement)",
             "embedded domain names compared case-insensitively (the UTF-8 name path lower-cases; DNS-equal)",
+            "include_layout keeps out what RFC 1035 leaves open: the line after a $INCLUDE states its owner and its TTL (or the parent's own $TTL is in force), included files carry no $TTL and state every TTL, all files sit in one directory; the optional domain-name argument of $INCLUDE is not generated (hickory refuses it with 'Domain name for $INCLUDE is not supported': an error, not a wrong record; recorded under observations)",
             "garbage: $INCLUDE of absolute paths only below /nonexistent-verif/ (the parser would read real files)",
             "no libFuzzer campaign in this harness (fz_zonefile lives in /verif/fuzz)",
         ],
-        subs: vec![exact_core, exact_ext, escapes, garbage],
+        subs: vec![exact_core, exact_ext, include, escapes, garbage],
     })
 }
